@@ -313,7 +313,11 @@ func init() {
 	register(engine{name: "ss2022-hs", share: 50,
 		gen: func(r *common.Rng, i int) Case {
 			c := Case{Entry: "ss2022-hs", Pre: true, Csid: r.U64(), TsOff: common.Pick(r, []int64{0, 0, 10, -10}), Flag: r.Chance(1, 4)}
-			c.Hex = hx(maybeMutate(r, tcpVarHeader(r)))
+			pt := maybeMutate(r, tcpVarHeader(r))
+			if len(pt) > 65535 { // the fixed-length header advertises the length in 16 bits
+				pt = pt[:65535]
+			}
+			c.Hex = hx(pt)
 			switch r.Intn(12) {
 			case 0:
 				c.N = 1
